@@ -40,6 +40,13 @@ CLAIMED = {
          "adversarial name sequences; designspace/plist/GLIF/UFO write-read equality and axis-map inverses are implementation sweeps (testing). "
          "F2 (misc/filenames raw-string table) repaired by a fix: commit.",
          "Rocq proof over a model with source-regenerated tables + correspondence + write/read sweeps"),
+ "C13": ("Theorems over exact rationals for the Gallina transcription of cu2qu: convex-hull (disc) lemma for cubics/quadratics, soundness "
+         "of cubic_farthest_fit_inside at every recursion depth, every accepted quadratic segment is within the tolerance of its cubic piece for "
+         "all t in [0,1] (error-curve identity + soundness), split_cubic_into_two/three are exact reparametrisations, a single-quadratic result "
+         "keeps the end points. The whole of curve_to_quadratic (splits, control points, intersection, n search) is modelled and tied to the "
+         "binary64 code by decision/coordinate correspondence with near-tie detection; curves_to_quadratic (same n), qu2cu and "
+         "cu2qu.ufo glyph conversion are dense-sampling sweeps on the implementation (testing).",
+         "Rocq proof over Q of the tolerance check's soundness + model/implementation correspondence + dense-sampling sweeps"),
 }
 
 def main():
